@@ -179,11 +179,7 @@ def ref_b58check_decode(s):
     b = ref_b58decode(s)
     if b is None:
         return None
-    if len(b) < 4:
-        # b[-4:] is the whole string and b[:-4] is empty: accepted only if it equals its own checksum prefix
-        data, ck = b[:-4], b[-4:]
-    else:
-        data, ck = b[:-4], b[-4:]
+    data, ck = b[:-4], b[-4:]     # for fewer than 4 bytes: empty data, the whole string as "checksum"
     return data if hashlib.sha256(hashlib.sha256(data).digest()).digest()[:4] == ck else None
 
 
@@ -637,7 +633,11 @@ def gen_bech32(ctx):
                  ("an83characterlonghumanreadablepartthatcontainsthenumber1andtheexcludedcharactersbio",
                   "an83characterlonghumanreadablepartthatcontainsthenumber1andtheexcludedcharactersbio1tt5tgs"),
                  ("x", "x1b4n0q5v"), ("li", "li1dgmt3"), ("de", "de1lg7wt\xff"), ("a", "A1G7SGD8"), ("", "10a06t8"), ("", "1qzzfhee"),
-                 ("a", "\x201nwldj5"), ("a", "\x7f1axkwrx"), ("a", "\x801eym55h"), ("pzry", "pzry9x0s0muk"), ("", "1pzry9x0s0muk")]:
+                 ("a", "\x201nwldj5"), ("a", "\x7f1axkwrx"), ("a", "\x801eym55h"), ("pzry", "pzry9x0s0muk"), ("", "1pzry9x0s0muk"),
+                 # the same BIP-173 invalid vectors with the expected HRP equal to the out-of-range one: HRP range boundaries
+                 ("\x20", "\x201nwldj5"), ("\x7f", "\x7f1axkwrx"), ("\x80", "\x801eym55h"),
+                 ("!", ref_bech32_encode("!", [1, 2], BECH32_CONST)), ("~", ref_bech32_encode("~", [1, 2], BECH32_CONST)),
+                 ("\x1f", ref_bech32_encode("\x1f", [1, 2], BECH32_CONST)), ("\x7f", ref_bech32_encode("\x7f", [0, 0], BECH32_CONST))]:
         ctx.run("bech32_decode", [h, s], "bip173-vector")
     for h in HRPS + BAD_HRPS:
         for n in (0, 1, 2, 5, 20, 32):
